@@ -104,6 +104,8 @@ class IR(AuxDataContainer):
         ir.modules.extend(
             Module._from_protobuf(m, ir) for m in proto_ir.modules
         )
+        for m in ir.modules:
+            m._resolve_pending_entry_point(ir)
         ir.cfg = CFG._from_protobuf(proto_ir.cfg.edges, ir)
         ir.aux_data.update(
             AuxDataContainer._read_protobuf_aux_data(proto_ir.aux_data, ir)
